@@ -29,6 +29,7 @@ impl std::str::FromStr for CompressionType {
     type Err = Error;
     fn from_str(raw: &str) -> Result<Self, Self::Err> {
         match raw {
+            "none" => Ok(CompressionType::None),
             "gzip" => Ok(CompressionType::Gzip),
             "zstd" => Ok(CompressionType::Zstd),
             "xz" => Ok(CompressionType::Xz),
